@@ -204,6 +204,7 @@ fn main() {
                 "opening" => pairs::opening_pairs(c),
                 "split" => pairs::split_pairs(c, seed),
                 "indep" => pairs::indep_pairs(c),
+                "summary" => pairs::summary_pairs(c, seed),
                 "layout" => pairs::layout_pairs(c, seed, false),
                 "relayout" => pairs::layout_pairs(c, seed.wrapping_add(c.id.len() as u64 * 7919 + c.files.iter().map(|f| f.len() as u64).sum::<u64>()), true),
                 _ => panic!("kind"),
